@@ -30,6 +30,8 @@ def native_both_profiles(prop, spec, tier, seed, v):
     checking is 'enabled' in both, so the property must hold in both (a check turned into debug_assert! or a
     debug-only branch shows in exactly one of them)."""
     native(prop, spec, tier, seed, v, lane="native")
+    if os.environ.get("VERIF_LANES") == "debug":
+        return  # experiments only (lib/mutsweep.py first pass); never set by a registered command
     native(prop, spec, tier, seed + 1000003, v, lane="release-checked", release_checked=True)
 
 
@@ -38,6 +40,8 @@ def native_three_profiles(prop, spec, tier, seed, v):
     run time whether checking is compiled in and skip the clauses that need it (C14: a correctly dimensioned setter
     argument must be accepted in every build)."""
     native_both_profiles(prop, spec, tier, seed, v)
+    if os.environ.get("VERIF_LANES") == "debug":
+        return
     native(prop, spec, tier, seed + 2000003, v, lane="release-unchecked", release_unchecked=True)
 
 
